@@ -40,8 +40,15 @@ use std::{
         Arc,
     },
     task::{Context, Poll, Waker},
-    time::{Duration, Instant},
+    time::Duration,
 };
+
+// Under the verification cfg the keep-alive tracker measures idleness on tokio's clock, so that a
+// paused (virtual) clock drives both the keep-alive sleeps and the activity timestamps.
+#[cfg(not(litep2p_verif))]
+use std::time::Instant;
+#[cfg(litep2p_verif)]
+use tokio::time::Instant;
 
 /// Logging target for the file.
 const LOG_TARGET: &str = "litep2p::transport-service";
